@@ -256,7 +256,11 @@ def b64_preamble(pre, iv):
     def cond(c):
         m = need(re.fullmatch(r"(.+?)\s*(==|!=|>=|<=|>|<)\s*('(?:\\\\.|[^'])'|0[xX][0-9a-fA-F]+|\d+)", c.strip(), re.S), f"fromBase64 per-byte test {c!r}")
         rel = {"==": "=", "!=": "≠", ">=": "≥", "<=": "≤", ">": ">", "<": "<"}[m.group(2)]
-        return f"decide ({operand(m.group(1), 'test')} {rel} {cexpr(m.group(3), {})})"
+        o = operand(m.group(1), 'test')
+        um = re.fullmatch(r"\((\w+) : Int\)", o)
+        if um:                                    # an unsigned operand (byte value / table value): compared as a Nat
+            return f"decide ({um.group(1)} {rel} {cexpr(m.group(3), {})})"
+        return f"decide ({o} {rel} ({cexpr(m.group(3), {})} : Int))"
 
     def seq(stmts, k, ind):
         """Lean term for the statement list followed by continuation text k (None = falls out of the preamble)"""
@@ -1594,31 +1598,33 @@ class FnCompiler:
                     if b["kind"] == "out":
                         mutated.add(b["var"])
             lname = f"{self.name}_loop{len(self.loops) + 1}"
-            # parameters: every scalar / string variable of the environment (tables are global constants)
+            # candidate parameters: every scalar / string variable of the environment (tables are global constants);
+            # a variable the loop does not modify and whose value is a literal is inlined
             names = [n for n in env if not n.startswith("#") and not (isinstance(env[n], tuple) and env[n][0] == "table")]
-            params, inner = [], {"#blocks": env["#blocks"]}
+            inline = {n for n in names if isinstance(env[n], Val) and n not in mutated and re.fullmatch(r"\d+", env[n].text)}
+            names = [n for n in names if n not in inline]
+            inner = {"#blocks": env["#blocks"]}
             for n in env:
-                if isinstance(env[n], tuple) and env[n][0] == "table":
+                if (isinstance(env[n], tuple) and env[n][0] == "table") or n in inline:
                     inner[n] = env[n]
+            kinds = {}
             for n in names:
                 v = env[n]
                 ln = self.unit.lean_ident(n)
                 if isinstance(v, tuple):
-                    params.append(f"({ln} : List Nat)")
+                    kinds[n] = "List Nat"
                     inner[n] = ("string", ln, v[2])
                 elif v.ty == "bool":
-                    params.append(f"({ln} : Bool)")
+                    kinds[n] = "Bool"
                     inner[n] = Val(ln, "bool")
                 else:
-                    params.append(f"({ln} : Nat)")
+                    kinds[n] = "Nat"
                     inner[n] = Val(ln, v.ty, None if n in mutated else v.ub)
+            calls = []
 
             def recur(env2):
-                args = []
-                for n in names:
-                    v = env2[n]
-                    args.append(par(v[1] if isinstance(v, tuple) else v.text))
-                return f"{lname} {self.ctx_args()}fuel {' '.join(args)}".rstrip()
+                calls.append({n: par(env2[n][1] if isinstance(env2[n], tuple) else env2[n].text) for n in names})
+                return f"⟪{len(calls) - 1}⟫"
 
             def leave(env2):
                 return K["next"]({n: v for n, v in env2.items() if n in outer or n.startswith("#")})
@@ -1635,15 +1641,32 @@ class FnCompiler:
                 b = self.stmt(body, env2, Kb)
                 return f"if {c} then\n{ind(b)}\nelse\n{ind(leave(env2))}"
             inner_text = self.cond(cond, inner, with_cond) if cond is not None else self.stmt(body, inner, Kb)
+
+            # parameters actually needed (dead / unused variables are dropped), in the order of their first use in the text:
+            # the signature does not depend on declaration order or on variables that are only written
+            def pos(n, text):
+                m = re.search(r"(?<![\w.])" + re.escape(self.unit.lean_ident(n)) + r"(?!\w)", text)
+                return m.start() if m else None
+            needed = {n for n in names if pos(n, inner_text) is not None}
+            grown = True
+            while grown:
+                grown = False
+                for c in calls:
+                    for q in list(needed):
+                        for n in names:
+                            if n not in needed and pos(n, c[q]) is not None:
+                                needed.add(n)
+                                grown = True
+            order = sorted([n for n in names if n in needed and pos(n, inner_text) is not None], key=lambda n: pos(n, inner_text))
+            order += [n for n in names if n in needed and n not in order]
+            for j, c in enumerate(calls):
+                inner_text = inner_text.replace(f"⟪{j}⟫", f"{lname} {self.ctx_args()}fuel {' '.join(c[n] for n in order)}".rstrip())
             hdr = self.ctx_params()
             self.loops.append(
-                f"def {lname} {hdr}: Nat → {' → '.join(['List Nat' if p.endswith(': List Nat)') else 'Bool' if p.endswith(': Bool)') else 'Nat' for p in params] + [self.lean_ret()])}\n"
-                f"  | 0{', _' * len(params)} => .oob\n"
-                f"  | fuel + 1, {', '.join(p[1:].split(' ')[0] for p in params)} =>\n{ind(inner_text, 2)}\n")
-            args = []
-            for n in names:
-                v = env[n]
-                args.append(par(v[1] if isinstance(v, tuple) else v.text))
+                f"def {lname} {hdr}: Nat → {' → '.join([kinds[n] for n in order] + [self.lean_ret()])}\n"
+                f"  | 0{', _' * len(order)} => .oob\n"
+                f"  | fuel + 1{''.join(', ' + self.unit.lean_ident(n) for n in order)} =>\n{ind(inner_text, 2)}\n")
+            args = [par(env[n][1] if isinstance(env[n], tuple) else env[n].text) for n in order]
             return f"{lname} {self.ctx_args()}fuel {' '.join(args)}".rstrip()
 
         if init is None:
@@ -1724,6 +1747,9 @@ def generate_body(repo):
     P = r"\s*\((?P<params>[^)]*)\)\s*\{"
     u.add(usrc, r"static\s+bool\s+append\s*\((?P<params>\s*uint32\s+\w+\s*,\s*String\s*&\s*\w+\s*)\)\s*\{", "append", "append", "bool",
           "Unicode::append(uint32, String&), UTF-8 branch (#else of #ifdef _UNICODE)")
+    u.add(usrc, r"static\s+bool\s+append\s*\((?P<params>\s*uint32\s+\w+\s*,\s*String\s*&\s*\w+\s*)\)\s*\{", "append#utf16", "append_utf16", "bool",
+          "Unicode::append(uint32, String&), UTF-16 branch (#ifdef _UNICODE; tchar = 16 bits; not compiled on this platform)",
+          defines=("_UNICODE",), tchar_bits=16)
     u.add(usrc, r"static\s+bool\s+append\s*\((?P<params>\s*const\s+uint32\s*\*\s*\w+\s*,\s*usize\s+\w+\s*,\s*String\s*&\s*\w+\s*)\)\s*\{", "append", "appendArr", "bool",
           "Unicode::append(const uint32*, usize, String&)")
     u.add(usrc, r"static\s+String\s+toString\s*\((?P<params>\s*uint32\s+\w+\s*)\)\s*\{", "toString", "toString", "string", "Unicode::toString(uint32)")
@@ -1749,6 +1775,89 @@ def generate_body(repo):
 
 
 
+# ======================================================================================================
+# PART 3 -- the one-line numeric wrappers of src/String.cpp (toInt ... toDouble, member and static; fromInt ... fromDouble):
+# which libc function each one calls, with which arguments, and the conversion of its result to the declared return type
+# (`lean/Nstd/Generated/CodecNum.lean`, over the libc DEFINITIONS of Nstd/Codec/Model.lean).  PropsBodyNum.lean proves
+# each generated wrapper equal to the model's.  Any other shape of these functions is refused (broken tie).
+# ======================================================================================================
+NUM_OUT = VERIF / "lean" / "Nstd" / "Generated" / "CodecNum.lean"
+LIBC_PARSE = {"atoi": ("atoi", "s32", False), "atol": ("strtol", "s64", False), "atoll": ("atoll", "s64", False),
+              "strtol": ("strtol", "s64", True), "strtoll": ("strtoll", "s64", True),
+              "strtoul": ("strtoul", "u64", True), "strtoull": ("strtoull", "u64", True)}
+CRET = {"int": "s32", "uint": "u32", "int64": "s64", "uint64": "u64"}
+
+
+def num_convert(expr, src, dst):
+    if src == dst or (src, dst) == ("s32", "s64"):
+        return expr
+    if (src, dst) == ("u64", "u32"):
+        return f"{expr} % 4294967296"
+    if (src, dst) == ("s64", "s32"):
+        return f"wrapInt32 ({expr})"
+    if src[0] == "s" and dst[0] == "u":
+        return f"(({expr}) % {2 ** int(dst[1:])}).toNat"
+    if (src, dst) == ("u64", "s64"):
+        return f"((({expr} : Nat) : Int) + 9223372036854775808) % 18446744073709551616 - 9223372036854775808"
+    if (src, dst) == ("u64", "s32"):
+        return f"wrapInt32 (({expr} : Nat) : Int)"
+    raise TranslateError(f"numeric wrapper: conversion {src} -> {dst} is not translated")
+
+
+def generate_num(repo):
+    src = strip_comments((Path(repo) / "src" / "String.cpp").read_text(errors="replace"))
+    out = ["/- GENERATED by tools/gen_codec.py (numeric wrappers) from the current src/String.cpp -- do not edit. -/\n",
+           "import Nstd.Codec.Model\nnamespace Nstd.Generated.CodecNum\nopen Nstd.Codec\n\n"]
+    for static in (False, True):
+        for name, rty in (("toInt", "int"), ("toUInt", "uint"), ("toInt64", "int64"), ("toUInt64", "uint64"), ("toDouble", "double")):
+            if static:
+                rx = (rty + r"\s+String::" + name + r"\s*\(\s*const\s+char\s*\*\s*(?P<a>\w+)\s*\)\s*\{\s*return\s+(?P<fn>\w+)\s*\(\s*(?P=a)\s*"
+                      r"(?P<rest>,\s*(?:0|NULL|nullptr)\s*,\s*(?P<base>\d+)\s*)?\)\s*;\s*\}")
+            else:
+                rx = (rty + r"\s+String::" + name + r"\s*\(\s*\)\s*const\s*\{\s*return\s+(?P<fn>\w+)\s*\(\s*\*\s*this\s*"
+                      r"(?P<rest>,\s*(?:0|NULL|nullptr)\s*,\s*(?P<base>\d+)\s*)?\)\s*;\s*\}")
+            ms = list(re.finditer(rx, src))
+            what = f"String::{name}({'const char*' if static else ''})"
+            if len(ms) != 1:
+                raise TranslateError(f"{what}: expected exactly one definition of the form `{{return <libc function>(<text>[, 0, 10]);}}`, found {len(ms)}")
+            m = ms[0]
+            fn, lname = m.group("fn"), name + ("S" if static else "")
+            doc = "/-- `" + re.sub(r"\s+", " ", m.group(0)) + "` -/\n"
+            if rty == "double":
+                if fn == "atof" and not m.group("rest"):
+                    pass
+                elif fn == "strtod" and m.group("rest") and m.group("base") is None:
+                    pass
+                else:
+                    raise TranslateError(f"{what}: call of {fn} is not translated")
+                out.append(doc + f"def {lname} (strtod : List Nat → Dbl) (s : List Nat) : Dbl := strtod (cstr s)\n")
+                continue
+            if fn not in LIBC_PARSE:
+                raise TranslateError(f"{what}: call of {fn} is not translated")
+            lean_fn, fty, takes_base = LIBC_PARSE[fn]
+            if takes_base != bool(m.group("rest")) or (takes_base and m.group("base") != "10"):
+                raise TranslateError(f"{what}: arguments of {fn} must be (text{', 0, 10' if takes_base else ''})")
+            dst = CRET[rty]
+            out.append(doc + f"def {lname} (s : List Nat) : {'Int' if dst[0] == 's' else 'Nat'} := {num_convert(f'{lean_fn} (cstr s)', fty, dst)}\n")
+    FMT = {("%d", "int"): ("fmtSigned v", "Int"), ("%u", "uint"): ("decDigits v", "Nat"), ("%lld", "int64"): ("fmtSigned v", "Int"),
+           ("%llu", "uint64"): ("decDigits v", "Nat"), ("%f", "double"): ("fmtF v", "Dbl")}
+    for name, cty in (("fromInt", "int"), ("fromUInt", "uint"), ("fromInt64", "int64"), ("fromUInt64", "uint64"), ("fromDouble", "double")):
+        rx = (r"String\s+String::" + name + r"\s*\(\s*" + cty + r"\s+(?P<v>\w+)\s*\)\s*\{\s*String\s+(?P<r>\w+)\s*;\s*(?P=r)\s*\.\s*printf\s*\(\s*"
+              r"\"(?P<fmt>%\w+)\"\s*,\s*(?P=v)\s*\)\s*;\s*return\s+(?P=r)\s*;\s*\}")
+        ms = list(re.finditer(rx, src))
+        if len(ms) != 1:
+            raise TranslateError(f"String::{name}({cty}): expected `{{String r; r.printf(\"<conversion>\", value); return r;}}`, found {len(ms)} such definitions")
+        key = (ms[0].group("fmt"), cty)
+        if key not in FMT:
+            raise TranslateError(f"String::{name}: conversion {key[0]} for a value of type {cty} is not translated")
+        text, lty = FMT[key]
+        out.append(f"/-- `String r; r.printf(\"{key[0]}\", value); return r;` on the fresh String (capacity `printfCap`) -/\n"
+                   f"def {name} (v : {lty}) : List Nat := printf printfCap ({text})\n")
+    out.append("\nend Nstd.Generated.CodecNum\n")
+    return "".join(out)
+
+
+
 def generate(repo):
     out = ["/- GENERATED by tools/gen_codec.py from the current sources of the repo -- do not edit. -/\n",
            "import Nstd.Codec.Mem\nnamespace Nstd.Generated.Codec\nopen Nstd.Codec\n\n"]
@@ -1765,10 +1874,11 @@ def gen(ctx=None, repo=None):
     try:
         text = generate(Path(repo))
         btext = generate_body(Path(repo))
+        ntext = generate_num(Path(repo))
     except (TranslateError, OSError, RecursionError) as ex:
         return False, f"gen_codec: {ex}"
     OUT.parent.mkdir(parents=True, exist_ok=True)
-    for path, t in ((OUT, text), (BODY_OUT, btext)):
+    for path, t in ((OUT, text), (BODY_OUT, btext), (NUM_OUT, ntext)):
         if not path.exists() or path.read_text() != t:
             path.write_text(t)
     return True, str(OUT)
